@@ -163,10 +163,31 @@ func (s *packetManager) controller() {
 			s.outgoing = append(s.outgoing, pkt)
 			s.outgoing.Sort()
 		case <-s.fini:
+			s.drain()
 			vhook("pm.fini", uint64(len(s.incoming)), uint64(len(s.outgoing)+len(s.responses)))
 			return
 		}
 		s.maybeSendPackets()
+	}
+}
+
+// drain is called once fini is closed. By then every registered request
+// has been queued on s.requests and every response on s.responses, but
+// select may have chosen fini while some of them are still buffered.
+// Pick them up, so that no response is lost on shutdown.
+func (s *packetManager) drain() {
+	for {
+		select {
+		case pkt := <-s.requests:
+			s.incoming = append(s.incoming, pkt)
+			s.incoming.Sort()
+		case pkt := <-s.responses:
+			s.outgoing = append(s.outgoing, pkt)
+			s.outgoing.Sort()
+		default:
+			s.maybeSendPackets()
+			return
+		}
 	}
 }
 
